@@ -466,6 +466,10 @@ fn used_imports<'a, 'b: 'a>(
         // Skip over imports that reference the current crate. They
         // are all collapsed into one module per crate.
         .filter(|imp| imp.base_crate != data.crate_name)
+        // `import_types` is a HashSet. A wildcard import only extends an entry that a
+        // specific import created, so visit the specific imports first: the result must
+        // not depend on iteration order.
+        .sorted_by_key(|imp| imp.type_name == "*")
     {
         // Look up the types for the referenced imported crate.
         if let Some(type_names) = all_types.get(&referenced_import.base_crate) {
